@@ -15,6 +15,9 @@ BUILT = {
  'C03': dict(technique='bounded exhaustive enumeration of literals (full product over the content classes) against a hand-written reference scanner; every literal replayed on the real library',
              text='all quoted bodies up to length 4 (5-6 thorough) over 29 content classes in six literal templates under four environments, unquoted words, literals next to comments: decoded values and accept/reject compared with the reference scanner + parser.',
              note='trusted: mc/reflex.py; forms the statements leave open (NUL escapes, ${ inside a word, unterminated "..." ) are executed but not compared', ref='5/C03'),
+ 'C04': dict(technique='bounded exhaustive enumeration of tokens (full product over the numeral / boolean alphabets) x kind x route x prior errno against exact reference conversions; every conversion executed on the real library',
+             text='all tokens up to length 5 (6 thorough) over a 15-symbol numeral alphabet and the boolean letter alphabet, for int/float/bool, through the parser, cfg_setopt and cfg_setmulti, with prior errno 0/ERANGE/EINVAL, plus boundary values around LONG_MIN/LONG_MAX/DBL_MAX in every radix: accepted iff well-formed and in range, exact value, rejection carries a diagnostic, verdict independent of errno.',
+             note='trusted: Python int()/float() as exact reference; forms the statement leaves open (leading +, sign before a prefix, blanks, hex floats, inf/nan, denormals) are executed but not compared', ref='5/C04'),
 }
 
 checks = []
